@@ -364,7 +364,6 @@ func (w *World) providerBlock(a *Action) *StepResult {
 	}
 	mis := w.pendingDS
 	w.pendingDS = nil
-	w.queueVotes()
 	br := w.P.ProduceBlock(dt, sim.Votes{Absent: absent}, mis)
 	res := &StepResult{Block: br, Chain: "provider"}
 	q := w.queued
@@ -392,6 +391,9 @@ func (w *World) providerBlock(a *Action) *StepResult {
 		w.observeTx(to)
 	}
 	w.closeProposals(res)
+	// votes for open proposals are queued first thing for the next block (the voting operators are busy for
+	// that block, so generators pick other signers)
+	w.queueVotes()
 	return res
 }
 
